@@ -188,7 +188,7 @@ def random_files(rng, n):
         gtf = style[2] == "gtf"
         alphabet = list("abcXYZ019_-.:/|()") + ["é", "中", "\U0001F600"] + ([] if gtf else ["%", ";", ",", "=", "&", "\t"])
         if not gtf:         # both ends of the control range that printing must escape again, DEL, and their unescaped neighbours (round 9: %1F printed raw)
-            alphabet += ["\x00", "\x01", "\x1e", "\x1f", "\x7f", "\n", "\r", "\x0b", " ", "~", "\x80"]
+            alphabet += ["\x00", "\x01", "\x1e", "\x1f", "\x7f", "\n", "\r", "\x0b", "~", "\x80"]     # (no blank: a value ending in a blank before "; " reads as " ; " when a line is parsed alone)
         nl = rng.choice([1, 2, 3, 5, 11, 12, 13, 30])
         kord = ["ID"] + rng.sample(keys[1:], len(keys) - 1)
         rows = []
